@@ -33,7 +33,7 @@ FUNCTIONS = ['dd.bdd.BDD.apply', 'dd._utils.assert_operator_arity', 'dd.bdd.BDD.
              'dd.bdd.BDD.dump', 'dd.bdd.BDD.load', 'dd.bdd.reorder', 'dd.bdd._sort_to_order',
              'dd.bdd._try_to_reorder', 'dd.bdd._ReorderingContext.__exit__',
              'dd.autoref.BDD.apply', 'dd.autoref.BDD.ite', 'dd.autoref.BDD.__contains__',
-             'dd.autoref.Function._apply']
+             'dd.autoref.Function._apply', 'dd.autoref.BDD.add_expr']
 STUBS = ['ite / find_or_add -> contracts that may request reordering (see dynreorder)']
 
 KINDS = ['apply_unknown_op', 'apply_arity', 'apply_foreign', 'let_undeclared_bool', 'let_undeclared_fn',
@@ -42,7 +42,10 @@ KINDS = ['apply_unknown_op', 'apply_arity', 'apply_foreign', 'let_undeclared_boo
          'count_small_n', 'pick_foreign', 'cube_undeclared', 'expr_syntax', 'expr_undeclared',
          'expr_dangling_node', 'dump_unknown_type', 'load_unknown_type', 'reorder_bad_order',
          'autoref_foreign_function', 'configure_unknown', 'load_conflicting_levels',
-         'autoref_load_conflicting_levels']
+         'autoref_load_conflicting_levels', 'autoref_expr_undeclared', 'autoref_expr_syntax',
+         'autoref_expr_dangling_node']
+AUTOREF_EXPR = {'autoref_expr_undeclared': '(a \\/ ~ b) /\\ zz', 'autoref_expr_syntax': '(a => b) /\\ /\\ b',
+                'autoref_expr_dangling_node': '(a \\/ b) /\\ @%d'}
 
 
 class Harness:
@@ -153,6 +156,10 @@ class Harness:
                 other = make_autoref(A, nodel_class(B)({nm: i for i, nm in enumerate(names)}))
                 fo = other.var(names[0])
                 out = abdd.apply('and', A.Function(U, abdd), fo)
+            elif kind in AUTOREF_EXPR:
+                abdd = make_autoref(A, bdd)
+                e = AUTOREF_EXPR[kind]
+                out = abdd.add_expr(e % absent if '%d' in e else e)
             elif kind == 'configure_unknown':
                 out = bdd.configure(nosuch=1)
             elif kind in ('load_conflicting_levels', 'autoref_load_conflicting_levels'):
@@ -298,6 +305,10 @@ def _do(kind, bdd, B, A, names, u, v, absent, L):
         abdd = make_autoref(A, bdd)
         other = make_autoref(A, nodel_class(B)({nm: i for i, nm in enumerate(names)}))
         return abdd.apply('and', A.Function(u, abdd), other.var(names[0]))
+    if kind in AUTOREF_EXPR:
+        abdd = make_autoref(A, bdd)
+        e = AUTOREF_EXPR[kind]
+        return abdd.add_expr(e % absent if '%d' in e else e)
     if kind == 'configure_unknown':
         return bdd.configure(nosuch=1)
     if kind in ('load_conflicting_levels', 'autoref_load_conflicting_levels'):
